@@ -154,8 +154,9 @@ fn process_modify_event(
         }
         ModifyKind::Name(rename_mode) => {
             match rename_mode {
-                // This event could be fired once on delete or twice on rename
-                RenameMode::Any => {
+                // This event could be fired once on delete or twice on rename. From and To are
+                // what is fired when something is moved out of or into the watched directories.
+                RenameMode::Any | RenameMode::From | RenameMode::To => {
                     if paths.len() != 1 {
                         panic!(
                             "File rename event should contain exactly one file. \
